@@ -66,6 +66,7 @@ func genWorkspace(t *rapid.T, o semGenOpts) Workspace {
 		cfg.NoFuncInTargetIndex = o.NoFuncInTargetIndex
 		cfg.NoFuncInForBounds = o.NoFuncInForBounds
 		cfg.GQualified = o.GQualified
+		cfg.AritySlack = true
 		cfg.Globals = []string{"G1", "G2", "gfun", "Gtab"}
 		cfg.Builtins = builtinNames
 		cfg.Prefix = fmt.Sprintf("f%d", i)
